@@ -639,11 +639,12 @@ def ssobjects_part(run, np, SSModel, quick):
         return model.c2d(h, method=m, **kw) if op == "c2d" else model.d2c(method=m, **kw)
 
     hists = res.tagged("OBJS")
-    stride = 1 if not quick else max(1, len(hists) // 700)
+    keep_frac = 1.0 if not quick else min(1.0, 800.0 / max(1, len(hists)))
     for hi, (objs, calls) in enumerate(hists):
-        if hi % stride:
+        # seeded random picks, not index strides: a stride can alias with the order in which TLC exports the histories
+        if rng.random() > keep_frac:
             continue
-        cls, (A, B, C, D, h, w) = systems[hi % len(systems)]
+        cls, (A, B, C, D, h, w) = systems[int(rng.integers(len(systems)))]
         if cls.startswith("integrator") and any(c["op"] == "d2c" and c["m"] == "zoh" for c in calls):
             continue          # outside the documented formula's domain (singular continuous A)
         key = tuple((c["src"], c["op"], c["m"], c["pw"]) for c in calls)
